@@ -10,6 +10,10 @@ package storage
 import (
 	"fmt"
 
+	badger "github.com/dgraph-io/badger/v2"
+	"github.com/marekgalovic/anndb/cluster"
+	"github.com/marekgalovic/anndb/storage/raft"
+
 	"github.com/marekgalovic/anndb/index"
 	pb "github.com/marekgalovic/anndb/protobuf"
 	"github.com/marekgalovic/anndb/utils"
@@ -148,3 +152,30 @@ func (s *VerifPartitionSM) Restore(data []byte) (err error) {
 	}()
 	return s.p.processSnapshot(data)
 }
+
+// VerifGate is called at the linearization points named in /verif/MANIFEST.json
+// ("search.collect", "size.collect", "propose.done"); the harness may block in it.
+var VerifGate func(point string, i int)
+
+func verifGate(point string, i int) {
+	if g := VerifGate; g != nil {
+		g(point, i)
+	}
+}
+
+// NewVerifDataset builds a real Dataset (real partitions, real fan-out code) that is
+// not registered with a DatasetManager.
+func NewVerifDataset(meta pb.Dataset, db *badger.DB, transport *raft.RaftTransport, conn *cluster.Conn) (*Dataset, error) {
+	id, err := uuid.FromBytes(meta.GetId())
+	if err != nil {
+		return nil, err
+	}
+	return newDataset(id, meta, db, transport, conn, nil)
+}
+
+func (d *Dataset) VerifPartitionIndex(i int) *index.Hnsw { return d.partitions[i].index }
+func (d *Dataset) VerifPartitionId(i int) uuid.UUID      { return d.partitions[i].id }
+func (d *Dataset) VerifLoadRaft(i int, nodeIds []uint64) error {
+	return d.partitions[i].loadRaft(nodeIds)
+}
+func (d *Dataset) VerifClose() { d.close() }
